@@ -318,6 +318,11 @@ pub fn run_tw(v: &TW, scratch: &Path, seed: u64) -> Result<(), String> {
         fs::write(layer.join("envx/FOO.override"), b"not an env dir either").unwrap();
         fs::create_dir_all(layer.join("exec.d")).unwrap();
         fs::write(layer.join("exec.d/prog"), b"x").unwrap();
+        // (directories whose name merely starts like an env directory's)
+        for d in ["env.d", "env.production", "env.launch.bak", "env.build-cache"] {
+            fs::create_dir_all(layer.join(d)).unwrap();
+            fs::write(layer.join(d).join("PATH.append"), b"part of the layer, not of its environment").unwrap();
+        }
         fs::write(tmp.path().join("layer.toml"), b"[types]\nlaunch = true\n").unwrap();
         for d in &v.predirs {
             fs::create_dir_all(layer.join(d)).unwrap();
